@@ -350,6 +350,61 @@ def run(chk):
         return True, "", [b.span]
     chk.ob("C15.R4:traceparent-layout", "the parser's constant offsets equal the 55-byte layout 00-<32>-<16>-<2> its formatter writes", traceparent_layout)
 
+    def traceparent_fields_examined():
+        """No accepting path of the traceparent parser skips a field: each of version, trace id, span id and flags is compared or decoded
+        (a use of the slice read from its offsets) on every path that returns Ok."""
+        b = P.body("emit_traceparent::Traceparent::try_from_str")
+        fields = {}
+        for c in b.calls(normal_only=True):
+            if c.callee.get("name") == "index" and len(c.args) > 1:
+                ro = b.origin(c.args[1])
+                if ro[0] == "agg" and (ro[1].get("adt") or "").endswith("range::Range"):
+                    f = dict(zip(ro[1]["fields"], ro[2]))
+                    fields[(mir.o_const_value(f["start"]), mir.o_const_value(f["end"]))] = c
+        if len(fields) < 4:
+            raise mir.AnchorMissing("the four field slices of the traceparent parser (found %d)" % len(fields))
+        oks = [bb for bb, j, st in b.statements(normal_only=True) if st["k"] == "assign" and st["place"]["l"] == 0 and "p" not in st["place"]
+               and st["rv"]["k"] == "agg" and st["rv"].get("variant") == "Ok"]
+        if not oks:
+            raise mir.AnchorMissing("an Ok return in the traceparent parser")
+        ev = []
+        for rng, ic in sorted(fields.items()):
+            # blocks that examine the slice: a call (eq / ne / try_from_hex_slice / ..) or comparison taking a value derived from it
+            users = set()
+            for c in b.calls(normal_only=True):
+                if c is ic:
+                    continue
+                for a in c.args:
+                    r = mir.o_root(b.origin(a))
+                    if r[0] == "call" and r[1].bb == ic.bb:
+                        users.add(c.bb)
+            def from_slice(o, d=0):
+                if d > 10:
+                    return False
+                if o[0] == "call":
+                    return o[1].bb == ic.bb
+                if o[0] in ("field", "downcast", "index", "cast", "ref", "deref", "copy", "discr"):
+                    return from_slice(o[1], d + 1)
+                if o[0] == "unop":
+                    return from_slice(o[2], d + 1)
+                if o[0] == "binop":
+                    return from_slice(o[2], d + 1) or from_slice(o[3], d + 1)
+                return False
+            for sbb, t in b.switches():
+                so = b.switch_origin(sbb)
+                # a pattern match on the slice's bytes (not merely on its length)
+                if from_slice(so) and not (so[0] == "binop" and "PtrMetadata" in mir.o_str(so)):
+                    users.add(sbb)
+            if not users:
+                return False, "the bytes %d..%d of the header are sliced but never examined" % rng, [], ic.loc
+            for ok in oks:
+                if not b.must_pass(list(users), ends=[ok]):
+                    return False, ("the traceparent parser can accept (Ok at block %d) without examining bytes %d..%d of the header: text that is "
+                                   "malformed in that field is accepted instead of rejected" % (ok, rng[0], rng[1])), [], ic.loc
+            ev.append("bytes %d..%d examined on every accepting path (%d use sites)" % (rng[0], rng[1], len(users)))
+        return True, "", ev
+    chk.ob("C15.R4:traceparent-fields-examined", "every accepting path of the traceparent parser has examined all four fields", traceparent_fields_examined)
+
     def traceparent_writer():
         bs = [b for b in P.find(trait="core::fmt::Display", method="fmt") if not b.is_closure and (b.self_ty or "") == "emit_traceparent::Traceparent"]
         if not bs:
@@ -519,6 +574,58 @@ def run(chk):
                                % (hi, 2100)), [], b.blocks[i]["term"].get("loc") or b.span
             ev.append("the every-fourth-year shortcut is guarded to years <= %d (< 2100)" % hi)
         return True, "", ev or ["from_parts has no century-free leap-year shortcut"]
+    def leap_day_after_february():
+        """The extra day of a leap year is counted for dates from March on: the month compared is one-based `parts.months` against 2
+        (`> 2` / `>= 3`), or its zero-based form (after `checked_sub(1)`) against 1 - never a mix of the two."""
+        bs = [x for k, x in P.bodies.items() if k.endswith("timestamp::Timestamp::from_parts")]
+        if not bs:
+            raise mir.AnchorMissing("Timestamp::from_parts")
+        b = bs[0]
+
+        def month_base(o, d=0):
+            """1 if `o` is parts.months, 0 if it is parts.months - 1 (checked_sub(1)? / wrapping), else None"""
+            if d > 10:
+                return None
+            if o[0] in ("cast", "copy", "ref", "deref"):
+                return month_base(o[1], d + 1)
+            if o[0] == "field" and o[2] == "months" and mir.o_is_param(o[1], idx=1):
+                return 1
+            if o[0] in ("field", "downcast"):
+                return month_base(o[1], d + 1)
+            if o[0] == "call" and o[1].callee.get("name") == "branch" and o[1].args:
+                return month_base(b.origin(o[1].args[0]), d + 1)
+            if o[0] == "call" and o[1].callee.get("name") in ("checked_sub", "wrapping_sub", "saturating_sub") and len(o[1].args) == 2:
+                k = mir.o_const_value(b.origin(o[1].args[1]))
+                inner = month_base(b.origin(o[1].args[0]), d + 1)
+                if isinstance(k, int) and inner is not None:
+                    return inner - k
+            if o[0] == "binop" and o[1] in ("Sub", "SubWithOverflow"):
+                k = mir.o_const_value(o[3])
+                inner = month_base(o[2], d + 1)
+                if isinstance(k, int) and inner is not None:
+                    return inner - k
+            return None
+        ev = []
+        for i, t in b.switches():
+            c = mir.norm_cmp(b.switch_origin(i), lambda o: month_base(o) is not None)
+            if c is None:
+                continue
+            op, l, r = c
+            k = mir.o_const_value(r)
+            if not isinstance(k, int) or op not in ("Gt", "Ge", "Lt", "Le"):
+                continue
+            base = month_base(l)          # value compared = one-based month - (1 - base)
+            off = 1 - base
+            first = {"Gt": k + off + 1, "Ge": k + off, "Lt": k + off, "Le": k + off + 1}[op]   # first one-based month on the "later" side
+            if first != 3:
+                names = ["", "January", "February", "March", "April", "May", "June", "July", "August", "September", "October", "November", "December"]
+                return False, ("Timestamp::from_parts counts the leap day from month %d (%s) on, not from March: the comparison `%s %s %d` is applied "
+                               "to the %s month number" % (first, names[first] if 0 < first < 13 else "?", "month", op, k,
+                                                           "one-based" if base == 1 else "zero-based")), [], b.blocks[i]["term"].get("loc") or b.span
+            ev.append("leap day counted from March on (%s-based month %s %d)" % ("one" if base == 1 else "zero", op, k))
+        return True, "", ev or ["no month comparison in from_parts (nothing to decide)"]
+    chk.ob("C15.R5:leap-day-after-february", "the leap day is added for dates from March on (month base and constant agree)", leap_day_after_february)
+
     chk.ob("C15.R5:four-year-shortcut", "a leap-year computation without century terms is only reachable for years below 2100",
            four_year_shortcut)
 
